@@ -451,6 +451,11 @@ func (g *fastGenerator) fieldItem(field *protogen.Field, fieldname string, messa
 			g.P(`}`)
 			g.P(`iNdEx += skippy`)
 			g.P(`}`)
+			// a key or value must end inside its entry: reading past the entry would make the
+			// enclosing loop decode the same bytes again
+			g.P(`if iNdEx > postIndex {`)
+			g.P(`return `, protoifacePkg.Ident("UnmarshalOutput"), "{NoUnkeyedLiterals: input.NoUnkeyedLiterals, Flags: input.Flags},", g.Ident("io", `ErrUnexpectedEOF`))
+			g.P(`}`)
 			g.P(`}`)
 			g.P(`x.`, fieldname, `[mapkey] = mapvalue`)
 		} else if repeated {
@@ -667,7 +672,7 @@ func (g *fastGenerator) unmarshalMapField(varName string, field *protogen.Field)
 		g.P(`if postStringIndex`, varName, ` < 0 {`)
 		g.P(`return `, protoifacePkg.Ident("UnmarshalOutput"), "{NoUnkeyedLiterals: input.NoUnkeyedLiterals, Flags: input.Flags},", runtimePackage.Ident("ErrInvalidLength"))
 		g.P(`}`)
-		g.P(`if postStringIndex`, varName, ` > l {`)
+		g.P(`if postStringIndex`, varName, ` > postIndex {`)
 		g.P(`return `, protoifacePkg.Ident("UnmarshalOutput"), "{NoUnkeyedLiterals: input.NoUnkeyedLiterals, Flags: input.Flags},", g.Ident("io", `ErrUnexpectedEOF`))
 		g.P(`}`)
 		g.P(varName, ` = `, "string", `(dAtA[iNdEx:postStringIndex`, varName, `])`)
@@ -682,7 +687,7 @@ func (g *fastGenerator) unmarshalMapField(varName string, field *protogen.Field)
 		g.P(`if postmsgIndex < 0 {`)
 		g.P(`return `, protoifacePkg.Ident("UnmarshalOutput"), "{NoUnkeyedLiterals: input.NoUnkeyedLiterals, Flags: input.Flags},", runtimePackage.Ident("ErrInvalidLength"))
 		g.P(`}`)
-		g.P(`if postmsgIndex > l {`)
+		g.P(`if postmsgIndex > postIndex {`)
 		g.P(`return `, protoifacePkg.Ident("UnmarshalOutput"), "{NoUnkeyedLiterals: input.NoUnkeyedLiterals, Flags: input.Flags},", g.Ident("io", `ErrUnexpectedEOF`))
 		g.P(`}`)
 		buf := `dAtA[iNdEx:postmsgIndex]`
@@ -699,7 +704,7 @@ func (g *fastGenerator) unmarshalMapField(varName string, field *protogen.Field)
 		g.P(`if postbytesIndex < 0 {`)
 		g.P(`return `, protoifacePkg.Ident("UnmarshalOutput"), "{NoUnkeyedLiterals: input.NoUnkeyedLiterals, Flags: input.Flags},", runtimePackage.Ident("ErrInvalidLength"))
 		g.P(`}`)
-		g.P(`if postbytesIndex > l {`)
+		g.P(`if postbytesIndex > postIndex {`)
 		g.P(`return `, protoifacePkg.Ident("UnmarshalOutput"), "{NoUnkeyedLiterals: input.NoUnkeyedLiterals, Flags: input.Flags},", g.Ident("io", `ErrUnexpectedEOF`))
 		g.P(`}`)
 		g.P(varName, ` = make([]byte, mapbyteLen)`)
